@@ -369,6 +369,11 @@ func itemIndependent(c *Ctx, rule string, anchors [][3]string) {
 
 // carriedDiag prints every loop-carried scalar of the program (calibration only).
 func carriedDiag(p *Prog) {
+	sw, ncalls := argSwaps(p, p.AllFuncs())
+	fmt.Printf("arg-swap: %d calls examined\n", ncalls)
+	for _, s := range sw {
+		fmt.Printf("arg-swap %s calls %s at %s\n", s.fn.Key(), s.callee.Name(), p.Pos(s.call))
+	}
 	ma, sized := makeThenAppend(p, p.live())
 	fmt.Printf("make-then-append: %d sized slices\n", sized)
 	for _, f := range ma {
